@@ -70,7 +70,7 @@ func cmdChain(args []string) {
 	if *entenum > 0 {
 		all := allEntEnumCfgs()
 		for j := 0; j < *entenum && j < len(all); j++ {
-			e := all[(int(seed)*37+j*(len(all) / *entenum+1))%len(all)]
+			e := all[(int(seed)*37+j*(len(all) / *entenum + 1))%len(all)]
 			if *entenum >= len(all) {
 				e = all[j]
 			}
